@@ -24,7 +24,7 @@ func init() {
 			"with 0 accidentals the flat/sharp flag is reported as sharp (false): the circle of fifths has no flats there",
 			"tempo domain is the set of BPM values 60e6/f for every 24-bit field value f >= 1 (every representable tempo)",
 		},
-		Require: []string{"appends_to_returned_messages", "empty_texts_through_a_used_variable", "shared_out_variable_reads", "text_len_ge_128", "seqdata_len_ge_128", "tempo_fields", "named_keys", "key_tuples", "timesig_tuples", "meta_msgs_classified", "text_dictionary_points", "nil_pattern_calls", "damaged_text_events_queried_before_the_same_text"},
+		Require: []string{"appends_to_returned_messages", "empty_texts_through_a_used_variable", "shared_out_variable_reads", "text_len_ge_128", "seqdata_len_ge_128", "tempo_fields", "named_keys", "key_tuples", "timesig_tuples", "meta_msgs_classified", "text_dictionary_points", "nil_pattern_calls", "damaged_text_events_queried_before_the_same_text", "smpte_grid_points"},
 		Run:     runC15,
 	})
 }
@@ -361,6 +361,32 @@ func runC15(c *mon.Ctx) {
 			c.DistinctBytes([]byte("smpte"), a[:])
 		}
 		c.Eval(999)
+	})
+
+	// ---- SMPTE offset on the time grid: every hour byte (with its frame-rate bits) x every minute x first / middle /
+	// last seconds x first and last frames of every rate: positions that are special in time code arithmetic (drop frame
+	// skips frames 0 and 1 of every minute that is not a multiple of ten) are plain numbers to the constructor
+	c.Each("smpte-grid", 256, func(i int64, _ *mon.Rand) {
+		n := int64(0)
+		for mn := 0; mn < 60; mn++ {
+			for _, sc := range []uint8{0, 1, 30, 59} {
+				for _, fr := range []uint8{0, 1, 2, 23, 24, 28, 29} {
+					for _, sub := range []uint8{0, 99} {
+						a := [5]uint8{uint8(i), uint8(mn), sc, fr, sub}
+						m := smf.MetaSMPTE(a[0], a[1], a[2], a[3], a[4])
+						var g [5]uint8
+						if ok := m.GetMetaSMPTEOffsetMsg(&g[0], &g[1], &g[2], &g[3], &g[4]); !ok || g != a || !bytes.Equal(m, append([]byte{0xFF, 0x54, 0x05}, a[:]...)) {
+							c.Violation("accessor:MetaSMPTE", fmt.Sprintf("MetaSMPTE%v = % X, GetMetaSMPTEOffsetMsg = %v,%v", a, []byte(m), ok, g), a, a, g)
+							return
+						}
+						n++
+					}
+				}
+			}
+		}
+		c.Count("smpte_grid_points", n)
+		c.Enumerated(n)
+		c.Eval(n)
 	})
 
 	// ---- documented calling mode: only out parameters that are not nil are filled (all nil patterns)
